@@ -44,6 +44,25 @@ fn main() {
     "replay" => cmd_replay(&args[2..]),
     "selftest" => registry::selftest(args.iter().any(|a| a == "--large")),
     "list" => { for p in registry::claimed() { println!("{}", p); } 0 }
+    // development aid: how often does the tree under test read an alias-written text differently from the meaning the generator gives it?
+    "aliascheck" => {
+      let n: u64 = args.get(2).and_then(|x| x.parse().ok()).unwrap_or(20000);
+      let canon = |l: &keys::Layout| -> Vec<(Vec<String>, Vec<String>, String, Vec<String>)> { l.mappings.iter().map(|m| { let mut f: Vec<String> = m.from[..m.from.len().saturating_sub(1)].iter().map(common::key_name).collect(); f.sort(); if let Some(k) = m.from.last() { f.push(common::key_name(k)); } (f, m.to.iter().map(common::key_name).collect(), format!("{:?}", m.repeat), m.absorbing.iter().map(common::key_name).collect()) }).collect() };
+      let (mut made, mut differ, mut rejected) = (0u64, 0u64, 0u64);
+      for i in 0..n {
+        let mut rng = rng::Rng::new(rng::mix(0xa11a5, i));
+        let o = gen::LayoutOpts { weird: false, related: false, dense: false, absorbing: false, norepeat: true, special: true, max_map: 4, big: rng.chance(1, 3), edge_times: false };
+        if let Some((meaning, text)) = gen::gen_alias_written(&mut rng, &o) {
+          made += 1;
+          match common::load_text(&text) {
+            Err(e) => { rejected += 1; if rejected <= 3 { println!("REJECTED: {}\n  {}", e, text); } }
+            Ok(l) => { if canon(&l) != canon(&meaning) { differ += 1; if differ <= 5 { println!("DIFFERS: {}\n  loaded  {:?}\n  meaning {:?}", text, canon(&l), canon(&meaning)); } } }
+          }
+        }
+      }
+      println!("aliascheck: {} texts, {} rejected by the loader, {} read differently from their meaning", made, rejected, differ);
+      0
+    }
     _ => usage(),
   }) {
     Ok(c) => c,
